@@ -70,7 +70,7 @@ CHECKS = {
              text="The property quantifies over crash instants and single I/O failures; the explorer visits every one of them for every input of the grid (one deviation quick, all pairs thorough) on the real binary, so within those bounds the ordering 'fsync both, then one link' and the cleanup paths are decided exhaustively.",
              note=VK_NOTE),
  "C10": dict(engine="SEQ", category="exploration", design_ref="4/C10",
-             technique="exhaustive product of control-file configurations (4x256x4x2, real files read by the real getcontrols()/regetcontrols()) x 143 generated addresses through the real rewrite(), and senderadd() over a sender/recipient grid, against an independent model of qmail-send(8)/addresses(5)",
+             technique="exhaustive product of control-file configurations (4x256x4x2, real files read by the real getcontrols()/regetcontrols()) x 143 generated addresses through the real rewrite(), and senderadd() over a sender/recipient grid, against an independent model of qmail-send(8)/addresses(5); deviation-bounded histories of the real qmail-send under the virtual kernel preprocessing mixed 5-recipient envelopes with locals/virtualdomains edited before every HUP (partition of the envelope into local/N and remote/N, delivery commands)",
              text="Rule precedence only shows where several rules match at once; the full subset product of a pool that contains every rule kind (user, domain, nested wildcards, catch-all, exceptions, locals, percent hack) makes every such overlap occur, and every address of the pool is routed under every configuration and compared with the model.",
              note=SEQ_NOTE + "; the order-preserving partition of recipients into local/remote files by todo_do is observed by the VK queue scenarios, not here"),
  "C09": dict(engine="SEQ", category="exploration", design_ref="4/C09",
